@@ -201,7 +201,8 @@ func c12ModuleRun(env world.Env, amount int64, denomMode int, D time.Duration, n
 // blocks through the whole application (both seams).
 // restart: after the purchases the storage module is restarted from its own exported genesis (export, JSON, validate,
 // empty store, import); every gauge must go on releasing exactly as if nothing had happened.
-func c12AppRun(env world.Env, sameParams bool, buyers int, seq []int, restart bool) mc.CaseResult {
+// post: the gauges are opened by pay-once file posts (different files of different owners, 30 days) instead of plans.
+func c12AppRun(env world.Env, sameParams bool, buyers int, seq []int, restart bool, post bool) mc.CaseResult {
 	w := env.W()
 	k := w.App.StorageKeeper
 	cr := mc.CaseResult{Class: "app"}
@@ -223,7 +224,17 @@ func c12AppRun(env world.Env, sameParams bool, buyers int, seq []int, restart bo
 			bytes += int64(i) * 1_000_000_000
 		}
 		before := gaugeBal()
-		mustOK(env.Deliver(storagetypes.NewMsgBuyStorage(u.Bech, u.Bech, 30, bytes, "ujkl")), "BuyStorage")
+		if post {
+			size := int64(12)
+			if !sameParams {
+				size = 2_000_000 + int64(i)*1_000_000
+			}
+			pm := storagetypes.NewMsgPostFile(u.Bech, mkFile(seqBytes(12, byte(i+1)), 4).merkle, size, 0, 0, 1, "{}")
+			pm.Expires = env.Ctx().BlockHeight() + 30*14400
+			mustOK(env.Deliver(pm), "pay-once PostFile")
+		} else {
+			mustOK(env.Deliver(storagetypes.NewMsgBuyStorage(u.Bech, u.Bech, 30, bytes, "ujkl")), "BuyStorage")
+		}
 		after := gaugeBal()
 		// the deposit made for this purchase's gauge: whatever arrived in a gauge account
 		for a, bal := range after {
@@ -344,11 +355,15 @@ func c12EnumApp(thorough bool) mc.Enum {
 		}{{false, 1}, {false, 2}, {true, 2}, {true, 3}} {
 			seq, v := seq, v
 			e.Cases = append(e.Cases, mc.Case{Desc: fmt.Sprintf("app|buyers=%d|sameParams=%v|times=%s", v.buyers, v.same, seqDesc(seq)), Run: func(env world.Env) mc.CaseResult {
-				return c12AppRun(env, v.same, v.buyers, seq, false)
+				return c12AppRun(env, v.same, v.buyers, seq, false, false)
 			}})
 			if v.buyers >= 2 {
 				e.Cases = append(e.Cases, mc.Case{Desc: fmt.Sprintf("app|buyers=%d|sameParams=%v|times=%s|restart", v.buyers, v.same, seqDesc(seq)), Run: func(env world.Env) mc.CaseResult {
-					return c12AppRun(env, v.same, v.buyers, seq, true)
+					return c12AppRun(env, v.same, v.buyers, seq, true, false)
+				}})
+				// the same gauges opened by pay-once file posts in one block
+				e.Cases = append(e.Cases, mc.Case{Desc: fmt.Sprintf("app|pay-once posts=%d|sameParams=%v|times=%s", v.buyers, v.same, seqDesc(seq)), Run: func(env world.Env) mc.CaseResult {
+					return c12AppRun(env, v.same, v.buyers, seq, false, true)
 				}})
 			}
 		}
@@ -360,7 +375,7 @@ func init() {
 	CaseReplayers["C12/gauges-module"] = func(r *mc.Run, c string) { r.ReplayCase(c12EnumModule(true), c) }
 	CaseReplayers["C12/gauges-app"] = func(r *mc.Run, c string) { r.ReplayCase(c12EnumApp(true), c) }
 	Props["C12"] = Prop{Level: "exploration", Run: func(r *mc.Run, tier string) {
-		r.Rules = append(r.Rules, "gauge amounts {1,2,3,7,10,999,1000003,1e15} x one/two denominations x durations {1d,30d,365d} x 1 or 3 concurrent gauges (also 2-3 identical ones, and gauges opened later that end together with the first) x every weakly increasing sequence of <=3 (thorough 4) reward-block times from {start,start+1us,D/7,D/3,D/2,D-1us,D,D+1us,2D} through the storage BeginBlocker; plus gauges created by real BuyStorage transactions (one buyer, two buyers, two buyers with identical parameters in the same block) run through the whole application at both seams, with and without a restart of the storage module from its own exported genesis after the purchases. Non-trivial = a reward block released something")
+		r.Rules = append(r.Rules, "gauge amounts {1,2,3,7,10,999,1000003,1e15} x one/two denominations x durations {1d,30d,365d} x 1 or 3 concurrent gauges (also 2-3 identical ones, and gauges opened later that end together with the first) x every weakly increasing sequence of <=3 (thorough 4) reward-block times from {start,start+1us,D/7,D/3,D/2,D-1us,D,D+1us,2D} through the storage BeginBlocker; plus gauges created by real BuyStorage transactions (one buyer, two buyers, two or three buyers with identical parameters in the same block) and by pay-once file posts (two or three files of different owners in one block, equal or different size) run through the whole application at both seams, with and without a restart of the storage module from its own exported genesis after the purchases. Non-trivial = a reward block released something")
 		r.Assumptions = append(r.Assumptions, "whether the unreleased remainder is paid after the end is unspecified (only 'nothing is released outside the interval' is enforced)", "tolerance one base unit per denomination")
 		r.AddEnum(c12EnumModule(tier == "thorough"), workers(), time.Time{})
 		r.AddEnum(c12EnumApp(tier == "thorough"), workers(), time.Time{})
